@@ -380,6 +380,22 @@ def check_ceil(ctx, rule, sh, ty, fn):
                              for c in conds)
                 if rem_ne:
                     num, form = n, "n / chunk_length + (n % chunk_length != 0)"
+            else:
+                # the if-expression: `if n % c == 0 { n / c } else { n / c + 1 }` (either branch order)
+                isdiv = lambda x: isinstance(x, tuple) and x[0] == "bin" and x[1] == "Div" and x[3] == chunk
+                base = [d for d in defs if isdiv(d[0])]
+                inc = [d for d in defs if Bin("Add", isdiv, Lit(1), commutative=True)(d[0])]
+                if len(base) == 1 and len(inc) == 1:
+                    n = base[0][0][2]
+                    q = inc[0][0][2] if isdiv(inc[0][0][2]) else inc[0][0][3]
+                    rem = lambda x: Bin("Rem", lambda y: y == n, lambda y: y == chunk)(x)
+                    def has(conds, op):
+                        return any((c[0] == "rel" and c[1] == op and rem(c[2]) and Lit(0)(c[3])) or
+                                   (c[0] == "rel" and c[1] == {"Ne": "Gt", "Eq": "Le"}[op] and rem(c[2]) and Lit(0)(c[3])) or
+                                   (c[0] == "truth" and c[2] is (op == "Eq") and Call("is_multiple_of", lambda y: y == n, lambda y: y == chunk)(c[1]))
+                                   for c in conds)
+                    if q[2] == n and has(inc[0][1], "Ne") and has(base[0][1], "Eq"):
+                        num, form = n, "if n % chunk_length == 0 { n / chunk_length } else { n / chunk_length + 1 }"
     if num is None:
         ctx.bad(rule, key, "%s::new does not compute gadget_calls as a ceiling division by chunk_length: %s" % (ty, fmt(gc)[:160]), loc=fn.loc)
         return
